@@ -200,9 +200,9 @@ def top_of(tyj, deps=frozenset(), tags=frozenset()):
         return IntVal.top(t, deps=deps, tags=tags)
     if isinstance(tyj, dict) and tyj.get("k") == "float":
         term = None
-        for tg in tags:
-            if isinstance(tg, tuple) and len(tg) == 2 and tg[0] in ("existing", "sym"):
-                term = ("sym", "%s:%s" % tg)
+        suffix = "".join("." + tg[1] for tg in sorted(t for t in tags if isinstance(t, tuple) and len(t) == 2 and t[0] == "field"))
+        for tg in sorted(t for t in tags if isinstance(t, tuple) and len(t) == 2 and t[0] in ("existing", "sym")):
+            term = ("sym", "%s:%s%s" % (tg[0], tg[1], suffix))
         return FloatVal(tyj["bits"], term=term, deps=deps, tags=tags)
     if isinstance(tyj, dict) and tyj.get("k") == "tuple":
         if not tyj["elems"]:
@@ -295,7 +295,12 @@ class Interp:
                 return self.opaque_field(st, v, i, p[2] if len(p) > 2 else None)
             if isinstance(v, IntVal) and v.lin is None and len(p) > 2:
                 return top_of(p[2], deps_of(v))
-            return top_of(p[2] if len(p) > 2 else None, deps_of(v), getattr(v, "tags", frozenset()))
+            tags = getattr(v, "tags", frozenset())
+            if tags and isinstance(v, Top) and isinstance(v.ty, dict) and v.ty.get("k") == "adt":
+                adt = self.prog.adts.get(v.ty["path"])
+                if adt is not None and adt["kind"] == "struct" and i < len(adt["variants"][0]["fields"]):
+                    tags = tags | frozenset([("field", adt["variants"][0]["fields"][i]["name"])])
+            return top_of(p[2] if len(p) > 2 else None, deps_of(v), tags)
         if kind == "d":
             if isinstance(v, AdtVal):
                 if v.variant is not None and v.variant != p[1]:
@@ -1322,7 +1327,9 @@ class Interp:
         if adt is None or adt["kind"] != "struct":
             return None
         vv = adt["variants"][0]
-        return AdtVal(ty["path"], 0, [top_of(f["ty"], v.deps, v.tags) for f in vv["fields"]], vname=vv["name"])
+        # fields of a tagged unknown struct stay distinguishable: each inherits the tags plus ("field", name)
+        ft = (lambda f: v.tags | frozenset([("field", f["name"])])) if v.tags else (lambda f: v.tags)
+        return AdtVal(ty["path"], 0, [top_of(f["ty"], v.deps, ft(f)) for f in vv["fields"]], vname=vv["name"])
 
     def materialise_enum(self, v):
         """unknown enum value -> lazy choice over its variants (fields unknown, tags/deps inherited)"""
